@@ -34,10 +34,11 @@ ASSUMPTIONS = ['final states are read from the .szx/.z80 file rzxplay writes aft
                'fetch counter = M1 cycles of executed instructions; playback flags bit 0 / bit 1 are tied to the recorder\'s ldair / ei mode only when a frame boundary '
                'of the recording depends on them, bit 2 is free when intermediate snapshots equal the running state',
                'MEMPTR is compared only under --cmio (plain simulators do not model it); AY and 0x7FFD state only on 128K; port 0xFE latch only through szx dumps',
-               'refz80-driven recordings: bits 5/3 of F and F\' are not compared, and a recording that executed PUSH AF is skipped (C05 excludes those bits)',
+               'refz80-driven recordings: bits 5/3 of F and F\' are not compared, and a recording that executed PUSH AF, BIT n,(HL) or a block instruction that repeated is skipped '
+               '(refz80 and the simulators differ there by design: flags that C05 excludes)',
                'under --cmio with a z80 snapshot MEMPTR cannot be carried by the file: recordings that execute BIT n,(HL) are skipped for the resume comparison there',
                'recordings in which an interrupt push overlaps the IM 2 vector are skipped (order of push and vector read belongs to the simulator, not to RZX playback)']
-MIN_NONTRIVIAL = {'quick': 600, 'thorough': 20000}
+MIN_NONTRIVIAL = {'quick': 1500, 'thorough': 30000}
 
 REG16 = ['bc', 'de', 'hl', 'bc2', 'de2', 'hl2', 'ix', 'iy', 'sp', 'pc']
 REG8 = ['a', 'f', 'a2', 'f2', 'i', 'r', 'im', 'iff1', 'border']
@@ -400,10 +401,44 @@ def describe(st, meta, cfg, R):
             'fetch_counters': [f.fetch for f in R.frames][:12], 'in_counters': [len(f.ins) for f in R.frames][:12],
             'boundaries': ''.join({'halt': 'H', 'ei': 'E', 'ldair': 'L', 'prefix': 'P', 'other': '.'}[f.last] + ('!' if f.accepted else '') for f in R.frames)[:80]}
 
-def classify(R):
+def classify(R, cfg, k=None, flags=0):
+    """Known-finding mechanisms (predicates over the witness).
+    C20-boundary-opcode-reread: at some frame boundary with interrupts enabled the bytes at the address of the frame's last
+      instruction, read again after it executed, no longer say what kind of instruction it was (HALT / EI / LD A,I/R / other).
+    C20-z80v1-pc0-dump: the snapshot in use at stop point k is a version 1 Z80 file and PC is 0 there (a v1 header marks
+      itself by PC != 0, so the dump written by write_rzx cannot be read back)."""
     if R.rec.hazard:
         return 'C20-boundary-opcode-reread'
+    if k is not None and R.frames[k - 1].pc == 0:
+        j = 0
+        if cfg['layout'] == 'snaps' and not flags & 4:
+            done = 0
+            for bi, b in enumerate(R.blocks):
+                if k > done:
+                    j = bi
+                done += len(b.frames)
+        if tuple(cfg['exts'][j]) == ('z80', 1):
+            return 'C20-z80v1-pc0-dump'
     return None
+
+MECHANISMS = {
+    'C20-boundary-opcode-reread': 'an instruction that ends a frame changed the byte(s) at its own address, and rzxplay classifies the last instruction '
+                                  '(HALT / EI / LD A,I/R) by re-reading memory after execution',
+    'C20-z80v1-pc0-dump': 'embedded Z80 version 1 snapshot and PC = 0 at the stop point: write_rzx keeps the v1 header, which cannot hold PC = 0',
+}
+
+def witness_z80v1_pc0(rng):
+    """Directed case for 'C20-z80v1-pc0-dump': DI; JP 0 recorded from a version 1 Z80 snapshot with 4 T frames: PC is 0 at the
+    end of frame 2, so the dump written at --stop 2 has a v1 header with PC = 0."""
+    st, meta = gen.gen_case(rng, allow_real=False)
+    ram = bytearray(49152)
+    code = [0xF3, 0xC3, 0x00, 0x00]
+    ram[0x4000:0x4000 + len(code)] = bytes(code)
+    st.update(machine='48K', ram=bytes(ram), pc=0x8000, sp=0xAF00, iff1=0, iff2=0, im=1, tstates=0, out7ffd=0)
+    meta.update(kind='witness', is128=False, org=0x8000, flen=4, jitter=0, frames=4, flen_class='tiny', inputs='const')
+    cfg = choose_config(rng, meta, 'quick', 'sim')
+    cfg.update(cmio=False, layout='single', sizes=[4], exts=[('z80', 1)], ldair=False, ei=False, dump_ext='szx')
+    return st, meta, cfg
 
 def witness_reread(rng):
     """Directed case for the mechanism 'C20-boundary-opcode-reread': the last instruction of a frame, LD (0x8000),A at 0x8000
@@ -424,6 +459,8 @@ def run_case(shard, case, asan=False, verbose=False):
     tier = shard.tier
     if case == 'witness-reread':
         st, meta, cfg = witness_reread(rng)
+    elif case == 'witness-z80v1-pc0':
+        st, meta, cfg = witness_z80v1_pc0(rng)
     else:
         mode = 'ref' if not asan and rng.random() < 0.2 else 'sim'
         st, meta = gen.gen_case(rng, allow_real=mode == 'sim', ref_friendly=mode == 'ref')
@@ -486,7 +523,10 @@ def run_case(shard, case, asan=False, verbose=False):
         d = dict(rp)
         if extra:
             d.update(extra)
-        shard.violation('%s\n recording: %s' % (what, info), d, classify(R))
+        fid = classify(R, cfg, (extra or {}).get('k'), flags)
+        if fid:
+            what = '[%s: %s] %s' % (fid, MECHANISMS[fid], what)
+        shard.violation('%s\n recording: %s' % (what, info), d, fid)
 
     def full_play(python, fl, out):
         r, argv = play('rec.rzx', out, fl, cmio, python)
@@ -605,10 +645,10 @@ def run(shard, spec):
                 shard.inc('stopped_on_budget')
                 break
         return
-    total = 150 if quick else 4000
+    total = 150 if quick else 3000
     cases = list(range(spec['shard'], total, spec['of']))
     if spec['shard'] == 0:
-        cases.insert(0, 'witness-reread')
+        cases[:0] = ['witness-reread', 'witness-z80v1-pc0']
     for case in cases:
         run_case(shard, case)
         if shard.out_of_time():
